@@ -164,6 +164,18 @@ CHECKS["C17"] = {
     "technique": "Coq proof over a file-system step model + fault injection with unittest.mock on the implementation",
 }
 
+CHECKS["C14"] = {
+    "text": "Proof (Coq): every edge of the graph carries one of the document's relations and runs from the node of its first "
+            "formal argument to the node of its second (node_map invariant), no relation yields more than one edge, with "
+            "declared endpoints there is exactly one edge per relation in order, every element node is kept, and "
+            "graph_to_prov builds a well-formed bundle-free document; endpoint inference uses the table generated from "
+            "/repo. Tie: ToGraph/GraphRoundTrip in the correspondence programs (nodes, edges with direction and edge data, "
+            "networkx's iteration order); oracle: an independent specification of the expected graph (PROV-DM roles) and of "
+            "the restricted unified content, after every record-changing call on bundle-free documents.",
+    "design_ref": "DESIGN.md §5 C14, §10",
+    "technique": "Coq proofs over the graph builder + differential correspondence and independent graph specification",
+}
+
 NOT_YET = {}
 
 
